@@ -115,6 +115,12 @@ class Env:
         if isinstance(t, (C.Coefficient, C.Argument)):
             if any(k != "x" for k, _ in derivs):
                 raise DenotationError("reference derivative of a physical field")
+            # a field in a symmetric tensor space has equal values in symmetric components (by definition of the
+            # space: both components are the same degree of freedom): one symbol for the whole class
+            pb = getattr(t.ufl_element(), "pullback", None)
+            smap = getattr(pb, "_symmetry", None)
+            if smap and tuple(comp) in smap:
+                comp = min(c_ for c_, k_ in smap.items() if k_ == smap[tuple(comp)])
             return self.base(f"{self.tname(t)}{list(comp)}{self.dname(derivs)}{s}".replace(" ", ""))
         if isinstance(t, C.Constant):
             if derivs:
